@@ -287,3 +287,108 @@ func (e *Engine) contractCallWrites(f *ssa.Function, cc *ssa.CallCommon, w *Writ
 	}
 	return true
 }
+
+// nthLocal resolves "name_N" to the N-th local variable (ssa.Alloc) named `name` in block/instruction order,
+// provided it is live on the current path.
+func (e *Engine) nthLocal(fr *Frame, name string) *ssa.Alloc {
+	k := strings.LastIndex(name, "_")
+	if k <= 0 || k == len(name)-1 {
+		return nil
+	}
+	n := 0
+	for _, c := range name[k+1:] {
+		if c < '0' || c > '9' {
+			return nil
+		}
+		n = n*10 + int(c-'0')
+	}
+	base := name[:k]
+	cnt := 0
+	for _, b := range fr.fn.Blocks {
+		for _, in := range b.Instrs {
+			if al, ok := in.(*ssa.Alloc); ok && al.Comment == base {
+				cnt++
+				if cnt == n {
+					if _, live := fr.regs[al]; live {
+						return al
+					}
+					return nil
+				}
+			}
+		}
+	}
+	return nil
+}
+
+// freshenPointerResults: `fresh_result` flag of a (trusted, extern) constructor contract - pointer results denote
+// newly allocated objects: concrete new refs, so they alias no object that existed before the call. Their fields are
+// whatever the heap arrays hold at the new ref (arbitrary) until the contract's ensures constrain them.
+func (e *Engine) freshenPointerResults(rv Value) Value {
+	fix := func(v Value) Value {
+		if p, ok := v.(*Ptr); ok && p.Kind == pkObj {
+			return &Ptr{Kind: pkObj, Ref: e.newRef(), Elem: p.Elem}
+		}
+		return v
+	}
+	if tv, ok := rv.(*Tuple); ok {
+		out := &Tuple{}
+		for _, v := range tv.Vs {
+			out.Vs = append(out.Vs, fix(v))
+		}
+		return out
+	}
+	if rv == nil {
+		return nil
+	}
+	return fix(rv)
+}
+
+// deepClosednessAxiom: the closedness axiom for heap arrays whose cells hold struct values (e.g. the element array of
+// a []kmsg.MetadataResponseTopic): every pointer, slice base and interface payload nested in a stored struct is at
+// most `bound`, i.e. is not a ref allocated later. Same fact as closednessAxiom states for scalar cells; generated only
+// for roots whose contract carries the flag `deep_closedness` (so the queries of other roots are unchanged).
+func (e *Engine) deepClosednessAxiom(h Term, key string, bound Term) (Term, bool) {
+	if e.rootContract == nil || e.rootContract.Flags["deep_closedness"] == "" {
+		return Term{}, false
+	}
+	gt := e.heapGoType[key]
+	if gt == nil || strings.HasPrefix(key, "Glob|") || strings.HasPrefix(key, "Map") || strings.HasPrefix(key, "G|") {
+		return Term{}, false
+	}
+	if _, ok := gt.Underlying().(*types.Struct); !ok {
+		return Term{}, false
+	}
+	var val Term
+	var vars string
+	if strings.HasPrefix(key, "Mem|") {
+		vars = "((r Int) (i Int))"
+		val = Select(Select(h, Term{"r", SInt}), Term{"i", SInt})
+	} else {
+		vars = "((r Int))"
+		val = Select(h, Term{"r", SInt})
+	}
+	var facts []Term
+	var walk func(v Term, ty types.Type, depth int)
+	walk = func(v Term, ty types.Type, depth int) {
+		if depth > 4 {
+			return
+		}
+		switch u := ty.Underlying().(type) {
+		case *types.Pointer, *types.Map, *types.Chan:
+			facts = append(facts, Le(v, bound))
+		case *types.Slice:
+			facts = append(facts, Le(App("s-base", SInt, v), bound))
+		case *types.Interface:
+			facts = append(facts, Le(App("i-val", SInt, v), bound))
+		case *types.Struct:
+			for i := 0; i < u.NumFields(); i++ {
+				walk(e.tm.FieldOf(ty, v, i), u.Field(i).Type(), depth+1)
+			}
+		}
+	}
+	walk(val, gt, 0)
+	if len(facts) == 0 {
+		return Term{}, false
+	}
+	return Term{fmt.Sprintf("(forall %s (! %s :pattern (%s)))", vars, And(facts...).S, val.S), SBool}, true
+}
